@@ -49,4 +49,12 @@ Definition seed_write_renews_existing : bool := true.
 (* munged.c, translated from the text: main() first makes descriptors 0-2 open (sanitize_std_fds: open /dev/null
    until the descriptor is > 2, close the last one); daemonize_fini dup2()s /dev/null onto these descriptors *)
 Definition main_sanitizes_std_fds : bool := true.
+(* ... and again right after log_close_file () (= fclose (stderr)) in the --syslog branch *)
+Definition syslog_branch_resanitizes : bool := true.
 Definition fini_dup2_targets : list nat := [0%nat; 1%nat; 2%nat].
+(* munged.c open_logfile, its text compiled and run by tools/facts/start.py: mode of the log file it creates under
+   a process umask (pairs umask, mode), and the permission bits of an existing log file it refuses without --force *)
+Definition log_mode_under_umask : list (N * N) := [(0, 416); (18, 416); (23, 416); (63, 384); (511, 0)].
+Definition log_refused_mask : N := 18.
+(* daemonize_init, translated from the text: the umask the daemon runs under in background mode (None: inherited) *)
+Definition daemon_umask : option N := Some 0.
